@@ -1522,7 +1522,10 @@ impl<'a, const C: usize, const R: usize, T: 'a + Copy + std::fmt::Debug> Layout<
             Some((WaitingAction::Hold, _)) => self.waiting_into_hold(i as i8),
             Some((WaitingAction::Tap, pq)) => self.waiting_into_tap(pq, i as i8),
             Some((WaitingAction::Timeout, _)) => self.waiting_into_timeout(i as i8),
-            Some((WaitingAction::NoOp, _)) => self.drop_waiting(),
+            Some((WaitingAction::NoOp, _)) => {
+                self.extra_waiting.remove(i as usize);
+                CustomEvent::NoEvent
+            }
             None => current_custom,
         }
     }
@@ -1805,7 +1808,7 @@ impl<'a, const C: usize, const R: usize, T: 'a + Copy + std::fmt::Debug> Layout<
                 self.last_press_tracker.update_coord(coord);
                 match td.config {
                     TapDanceConfig::Lazy => {
-                        self.waiting = Some(WaitingState {
+                        let waiting = WaitingState {
                             coord,
                             timeout: td.timeout,
                             delay,
@@ -1821,7 +1824,13 @@ impl<'a, const C: usize, const R: usize, T: 'a + Copy + std::fmt::Debug> Layout<
                             layer_stack: layer_stack.collect(),
                             prev_queue_len: QueueLen::MAX,
                             quick_timing: None,
-                        });
+                        };
+                        // Do not replace a decision that is still pending.
+                        if self.waiting.is_some() {
+                            self.extra_waiting.push_back(waiting);
+                        } else {
+                            self.waiting = Some(waiting);
+                        }
                     }
                     TapDanceConfig::Eager => {
                         match self.tap_dance_eager {
@@ -1854,7 +1863,7 @@ impl<'a, const C: usize, const R: usize, T: 'a + Copy + std::fmt::Debug> Layout<
             }
             &Chords(chords) => {
                 self.last_press_tracker.update_coord(coord);
-                self.waiting = Some(WaitingState {
+                let waiting = WaitingState {
                     coord,
                     timeout: chords.timeout,
                     delay,
@@ -1866,7 +1875,13 @@ impl<'a, const C: usize, const R: usize, T: 'a + Copy + std::fmt::Debug> Layout<
                     layer_stack: layer_stack.collect(),
                     prev_queue_len: QueueLen::MAX,
                     quick_timing: None,
-                });
+                };
+                // Do not replace a decision that is still pending.
+                if self.waiting.is_some() {
+                    self.extra_waiting.push_back(waiting);
+                } else {
+                    self.waiting = Some(waiting);
+                }
             }
             &KeyCode(keycode) => {
                 self.last_press_tracker.update_coord(coord);
